@@ -185,7 +185,21 @@ var kinds = []kindSpec{
 		inherit: []inh{{"smarthost", "smtp_smarthost", func(*gen) any { return "smtp.example.org:587" }},
 			{"from", "smtp_from", func(*gen) any { return "am@example.org" }}}, noHTTP: true},
 	{kind: "slack"},
-	{kind: "pushover", base: func(g *gen) OMap { return OMap{{"user_key", secv(g)}, {"token", secv(g)}} }},
+	{kind: "pushover", base: func(g *gen) OMap {
+		m := OMap{{"user_key_file", "/etc/am/pushover_user"}, {"token_file", "/etc/am/pushover_token"}}
+		if !g.secretFree {
+			m = OMap{{"user_key", secv(g)}, {"token", secv(g)}}
+		}
+		// durations of its own type (time.ParseDuration syntax): what is printed must be readable again, also from a day up
+		pool := []string{"30s", "1m", "90m", "24h", "48h", "168h", "8760h", "36h30m"}
+		if g.secretFree || g.r.Chance(1, 3) {
+			m = append(m, KV{"priority", "2"}, KV{"retry", vh.Pick(g.r, pool)}, KV{"expire", vh.Pick(g.r, pool)})
+			if g.r.Bool() {
+				m = append(m, KV{"ttl", vh.Pick(g.r, pool)})
+			}
+		}
+		return m
+	}},
 	{kind: "pagerduty", base: func(g *gen) OMap { return OMap{{"routing_key", secv(g)}} },
 		inherit: []inh{{"url", "pagerduty_url", plainURL("")}}},
 	{kind: "incidentio", base: func(g *gen) OMap {
@@ -227,7 +241,7 @@ var kinds = []kindSpec{
 }
 
 // kinds that can be written without any secret (file variants / no credentials), for the round-trip stream
-var secretFreeKinds = map[string]bool{"webhook": true, "discord": true, "msteams": true, "email": true, "jira": true}
+var secretFreeKinds = map[string]bool{"webhook": true, "discord": true, "msteams": true, "email": true, "jira": true, "pushover": true}
 
 var defaultProvides = []string{"pagerduty_url", "opsgenie_api_url", "wechat_api_url", "victorops_api_url",
 	"telegram_api_url", "webex_api_url", "rocketchat_api_url", "smtp_hello"}
